@@ -858,6 +858,17 @@ func (ai *AInterp) eval(fr *aFrame, st *AState, v ssa.Value) AVal {
 				return aStr(s[lo:hi])
 			}
 		}
+		// a slice of a value the client named: symbolic, with the bounds that are given
+		if _, isStr := a.Str(); isStr || a.Kind == avUnknown && (a.Tag != "" || a.Expr != nil) {
+			args := []AVal{a, {Kind: avNil}, {Kind: avNil}}
+			if x.Low != nil {
+				args[1] = fr.get(ai, st, x.Low)
+			}
+			if x.High != nil {
+				args[2] = fr.get(ai, st, x.High)
+			}
+			return AVal{Kind: avUnknown, Expr: &AExpr{Call: "slice", Args: args}}
+		}
 		return aUnknown(x)
 	case *ssa.Lookup:
 		// a map built on the path (or given by the client) whose keys are all identifiable
@@ -1138,7 +1149,17 @@ func (w *World) initState() *AState {
 		}
 	}
 	// only constants and function values are kept: everything else a run may not rely on
+	// — except package-level tables that nothing writes after initialisation
+	// (a map or slice literal of constants or functions used as a dispatch table)
 	for g, o := range st.globals {
+		if w.readOnlyGlobal(g) {
+			o.Extern = false
+			if v, ok := o.Fields[0]; ok && v.Kind == avFunc && v.Tag == "" {
+				v.Tag = "var:" + g.Name()
+				o.Fields[0] = v
+			}
+			continue
+		}
 		keep := false
 		for _, v := range o.Fields {
 			if v.isConst() || v.Kind == avFunc {
@@ -1156,6 +1177,54 @@ func (w *World) initState() *AState {
 		}
 		o.Extern = true
 	}
+	// keep only what the kept variables reach, and no table so large that
+	// carrying it through every fork costs more than it tells (the Unicode
+	// range tables of the scanner are evaluated separately, grammar_anchors.go)
+	reach := func(root *AObj) map[int]bool {
+		seen := map[int]bool{}
+		var walk func(o *AObj)
+		walk = func(o *AObj) {
+			if o == nil || seen[o.ID] || len(seen) > 400 {
+				return
+			}
+			seen[o.ID] = true
+			o = st.obj(o)
+			for _, v := range o.Fields {
+				if (v.Kind == avPtr || v.Kind == avStruct) && v.Obj != nil {
+					walk(v.Obj)
+				}
+				for _, b := range v.Bind {
+					if b.Obj != nil {
+						walk(b.Obj)
+					}
+				}
+			}
+			for _, v := range o.Map {
+				if (v.Kind == avPtr || v.Kind == avStruct) && v.Obj != nil {
+					walk(v.Obj)
+				}
+			}
+		}
+		walk(root)
+		return seen
+	}
+	keepObj := map[int]bool{}
+	for g, o := range st.globals {
+		rs := reach(o)
+		if len(rs) > 400 {
+			delete(st.globals, g)
+			continue
+		}
+		for id := range rs {
+			keepObj[id] = true
+		}
+	}
+	for id := range st.heap {
+		if !keepObj[id] {
+			delete(st.heap, id)
+		}
+	}
+	st.Trace = nil
 	w.initStateCache = st
 	return st.fork()
 }
@@ -1191,4 +1260,143 @@ func reflectKindOf(t types.Type) (reflect.Kind, bool) {
 		return reflect.Func, true
 	}
 	return 0, false
+}
+
+// readOnlyGlobal: outside package initialisation the variable is only read:
+// never stored to, its address never taken for anything but a load, and what
+// is loaded from it is only indexed, looked up, ranged over, measured or has
+// its fields read (no element is assigned, it is not handed to a call that
+// could write through it).
+func (w *World) readOnlyGlobal(g *ssa.Global) bool {
+	if w.roGlobalCache == nil {
+		w.roGlobalCache = map[*ssa.Global]bool{}
+	} else if v, ok := w.roGlobalCache[g]; ok {
+		return v
+	}
+	ro := true
+	var readOnlyUse func(v ssa.Value, depth int) bool
+	readOnlyUse = func(v ssa.Value, depth int) bool {
+		if depth > 6 {
+			return false
+		}
+		for _, u := range uses(v) {
+			switch x := u.(type) {
+			case *ssa.Lookup, *ssa.Range, *ssa.DebugRef:
+			case *ssa.Index:
+				// element of an array value: reading
+			case *ssa.IndexAddr:
+				if x.X != v {
+					continue
+				}
+				for _, u2 := range uses(x) {
+					if ld, ok := u2.(*ssa.UnOp); ok && ld.Op == token.MUL {
+						if !readOnlyUse(ld, depth+1) {
+							return false
+						}
+						continue
+					}
+					if fa, ok := u2.(*ssa.FieldAddr); ok {
+						if !readOnlyUse(fa, depth+1) {
+							return false
+						}
+						continue
+					}
+					return false
+				}
+			case *ssa.FieldAddr:
+				for _, u2 := range uses(x) {
+					if ld, ok := u2.(*ssa.UnOp); ok && ld.Op == token.MUL {
+						if !readOnlyUse(ld, depth+1) {
+							return false
+						}
+						continue
+					}
+					return false
+				}
+			case *ssa.Field:
+				if !readOnlyUse(x, depth+1) {
+					return false
+				}
+			case *ssa.Extract:
+				if !readOnlyUse(x, depth+1) {
+					return false
+				}
+			case *ssa.Next:
+			case *ssa.UnOp:
+				if x.Op == token.MUL && x.X == v {
+					if !readOnlyUse(x, depth+1) {
+						return false
+					}
+				}
+			case *ssa.BinOp, *ssa.If, *ssa.Return, *ssa.Phi, *ssa.Convert, *ssa.ChangeType, *ssa.TypeAssert, *ssa.MakeInterface, *ssa.Store:
+				// a value read out of the table (a constant, a function): using it is not writing the table
+				if st, ok := x.(*ssa.Store); ok && st.Addr == v {
+					return false
+				}
+				if _, isRef := v.Type().Underlying().(*types.Map); isRef {
+					return false
+				}
+				if _, isRef := v.Type().Underlying().(*types.Slice); isRef {
+					return false
+				}
+				if _, isRef := v.Type().Underlying().(*types.Pointer); isRef {
+					return false
+				}
+			case ssa.CallInstruction:
+				cc := x.Common()
+				if bi, ok := cc.Value.(*ssa.Builtin); ok && (bi.Name() == "len" || bi.Name() == "cap") {
+					continue
+				}
+				if cc.Value == v {
+					continue // calling a function read out of the table
+				}
+				// handed to a call: fine for values that cannot be written through
+				switch v.Type().Underlying().(type) {
+				case *types.Map, *types.Slice, *types.Pointer:
+					return false
+				}
+			case *ssa.MapUpdate:
+				if x.Map == v {
+					return false
+				}
+			default:
+				return false
+			}
+		}
+		return true
+	}
+	for _, fn := range w.AllFuncs {
+		if fn.Name() == "init" && fn.Parent() == nil {
+			continue
+		}
+		eachInstr(fn, false, func(_ *ssa.Function, in ssa.Instruction) {
+			for _, op := range in.Operands(nil) {
+				if *op != ssa.Value(g) {
+					continue
+				}
+				ld, ok := in.(*ssa.UnOp)
+				if ok && ld.Op == token.MUL {
+					if !readOnlyUse(ld, 0) {
+						ro = false
+					}
+					continue
+				}
+				if fa, ok := in.(*ssa.FieldAddr); ok && fa.X == ssa.Value(g) {
+					for _, u2 := range uses(fa) {
+						if l2, ok := u2.(*ssa.UnOp); ok && l2.Op == token.MUL {
+							if !readOnlyUse(l2, 0) {
+								ro = false
+							}
+							continue
+						}
+						ro = false
+					}
+					continue
+				}
+				ro = false
+			}
+		})
+	}
+	w.roGlobalCache[g] = ro
+	return ro
 }
